@@ -4,9 +4,9 @@ from lib.verif import *
 THEOREMS = [
     "C14_spend_hint_safe", "C14_spend_details_on_chain", "C14_spend_exact",
     "C14_reorg_before_respend",
-    "C14_conf_hint_safe", "C14_conf_exact", "C14_conf_exact_emit", "C14_reorg_before_reconf",
-    "C14_conf_exact_partial_reorg_refuted",
-    "C14_spend_exact_cancel_refuted", "C14_conf_exact_cancel_refuted",
+    "C14_conf_hint_safe", "C14_conf_details_on_chain", "C14_conf_exact", "C14_conf_exact_emit",
+    "C14_reorg_before_reconf", "C14_conf_exact_partial_reorg_refuted",
+    "C14_conf_zero_client_details_cleared", "C14_spend_zero_client_details_cleared",
 ]
 MODULE = "LV.Notifier.Props"
 TARGETS = ["theories/Notifier/Props.vo", "theories/Notifier/Exec.vo",
@@ -146,9 +146,6 @@ class Req:
         self.exists = False      # a registration succeeded (set created)
         self.outstanding = 0     # historical dispatches handed out and not yet answered
         self.clients = {}        # cid -> dict(n=…, status=None|(h,x), live=True)
-        self.noclient = None     # height of rescan details delivered while no client was registered
-        self.stale = False       # ... and that height has been disconnected since (finding C14-F1)
-        self.tipfound = None     # height at which the notifier itself saw the inclusion at tip
 
 
 def predicate(case, stats=None):
@@ -163,17 +160,7 @@ def predicate(case, stats=None):
     The 'exact' and 'hint' clauses are only evaluated while the theorem hypotheses hold
     for the request (valid client hints, truthful rescan answers, reorgs within the
     safety limit); 'reorg' is unconditional."""
-    class Fails(list):
-        def append(self, f):
-            # f = (theorem, message, op index); the request it concerns is
-            # looked up lazily through cur_req to tag the known stale-details finding
-            r = cur_req[0]
-            tag = ""
-            if r is not None and r.stale:
-                tag = "known:stale-details-no-client " + ("conf" if r in conf else "spend")
-            list.append(self, (f[0], f[1], f[2], tag))
-    cur_req = [None]
-    fails = Fails()
+    fails = []
     chain = [(b[0], list(b[1])) for b in case["pre"]]     # chain[h-1] = (bid, txs)
     limit = case["limit"]
     high = len(chain)
@@ -246,9 +233,6 @@ def predicate(case, stats=None):
                 taint(r, "rescan answer not on the active chain")
             elif a[0] > cur and p is not None:
                 taint(r, "rescan answered 'above tip' for a confirmed tx")
-            if (a is not None and a[0] <= cur and r.tipfound != a[0]
-                    and not any(c["live"] for c in r.clients.values())):
-                r.noclient = a[0]
             r.outstanding = 0
         elif kind == "supd" and ret == "ok":
             r = spend[op[1]]
@@ -261,9 +245,6 @@ def predicate(case, stats=None):
                 taint(r, "rescan answer not on the active chain")
             elif a[0] > cur and p is not None:
                 taint(r, "rescan answered 'above tip' for a spent outpoint")
-            if (a is not None and a[0] <= cur and r.tipfound != a[0]
-                    and not any(c["live"] for c in r.clients.values())):
-                r.noclient = a[0]
             r.outstanding = 0
         elif kind == "cancel":
             c = conf[op[1]].clients.get(op[2])
@@ -281,11 +262,6 @@ def predicate(case, stats=None):
                 j = SPENDS[i]
                 if not spend[j].exists and prev_sh[j] is not None and prev_sh[j] > op[1]:
                     taint(spend[j], "unwatched outpoint spent below its cached hint")
-            for i in op[3]:
-                if conf[i].exists:
-                    conf[i].tipfound = op[1]
-                if spend[SPENDS[i]].exists:
-                    spend[SPENDS[i]].tipfound = op[1]
             chain.append((op[2], list(op[3])))
             high = max(high, len(chain))
             pending = True
@@ -295,11 +271,6 @@ def predicate(case, stats=None):
             if op[1] + limit <= high:
                 for r in conf + spend:
                     taint(r, "reorg beyond the safety limit")
-            for r in conf + spend:
-                if r.noclient is not None and r.noclient == op[1]:
-                    r.stale = True
-                if r.tipfound == op[1]:
-                    r.tipfound = None
             chain.pop()
         cur = len(chain)
 
@@ -309,7 +280,6 @@ def predicate(case, stats=None):
             side, x = owner[cid]
             if side == "c":
                 r = conf[x]
-                cur_req[0] = r
                 c = r.clients[cid]
                 for d in rec.get("n", []):
                     c["status"] = None
@@ -332,7 +302,6 @@ def predicate(case, stats=None):
                     c["done"] = True
             else:
                 r = spend[x]
-                cur_req[0] = r
                 c = r.clients[cid]
                 if rec.get("r"):
                     c["status"] = None
@@ -361,7 +330,6 @@ def predicate(case, stats=None):
         # ---- state clauses
         for i, r in enumerate(conf):
             p = pos_tx(i)
-            cur_req[0] = r
             if r.tainted is not None:
                 continue
             for cid, c in r.clients.items():
@@ -381,7 +349,6 @@ def predicate(case, stats=None):
                               % (o["ch"][i], p[0], i), k))
         for j, r in enumerate(spend):
             p = pos_spend(j)
-            cur_req[0] = r
             if r.tainted is not None:
                 continue
             for cid, c in r.clients.items():
@@ -444,7 +411,7 @@ def run(ctx):
         "(3 txs / 2 outpoints in flight per case), not proved",
         "theorem hypotheses (environment): client height hints not above the actual "
         "confirmation/spend height, historical-rescan answers truthful about the active chain "
-        "at delivery, ConnectTip followed by NotifyHeight, reorgs shallower than "
+        "at delivery (no condition on registered clients since the repair af6371e), ConnectTip followed by NotifyHeight, reorgs shallower than "
         "reorgSafetyLimit below the highest tip seen, at most one inclusion of a txid / one "
         "spend of an outpoint on the active chain"])
     env = {}
@@ -465,8 +432,8 @@ def run(ctx):
     for c in rows:
         f = predicate(c, stats)
         if f:
-            thm, msg, k, tag = f[0]
-            sig = tag or "%s: %s" % (thm, msg.split(" (")[0][:60])
+            thm, msg, k = f[0]
+            sig = "%s: %s" % (thm, msg.split(" (")[0][:60])
             if (thm, c["kind"]) in seen and nfail >= 3:
                 continue
             seen.add((thm, c["kind"]))
